@@ -6,7 +6,6 @@ import (
 	"io"
 	"log"
 
-	"github.com/dim13/cobs"
 	"github.com/simpleiot/simpleiot/test"
 )
 
@@ -140,12 +139,36 @@ func (cw *CobsWrapper) Read(b []byte) (int, error) {
 	}
 }
 
+// cobsEncode returns the COBS encoding of p followed by the packet delimiter.
+// (cobs.Encode of github.com/dim13/cobs drops a zero that follows a run of
+// exactly 254 non-zero bytes.)
+func cobsEncode(p []byte) []byte {
+	out := make([]byte, 1, len(p)+len(p)/254+2)
+	codeIdx := 0
+	code := byte(1)
+	for _, b := range p {
+		if b != 0 {
+			out = append(out, b)
+			code++
+		}
+		if b == 0 || code == 0xff {
+			// finish this block and start the next one
+			out[codeIdx] = code
+			codeIdx = len(out)
+			out = append(out, 0)
+			code = 1
+		}
+	}
+	out[codeIdx] = code
+	return append(out, 0)
+}
+
 func (cw *CobsWrapper) Write(b []byte) (int, error) {
 	if cw.debug >= 8 {
 		log.Println("SER TX RAW:", test.HexDump(b))
 	}
 
-	w := append([]byte{0}, cobs.Encode(b)...)
+	w := append([]byte{0}, cobsEncode(b)...)
 
 	if cw.debug >= 9 {
 		log.Println("SER TX COBS:", test.HexDump(w))
